@@ -51,7 +51,32 @@ pub fn generate(rng: &mut Rng) -> Workload {
     let k = rng.range(4, 24);
     let descr;
     let mut has_tasks = false;
-    match rng.below(6) {
+    match rng.below(9) {
+        6 => {
+            let pushes = rng.range(1, 9);
+            descr = format!("a scratch array of {pushes} integer literals per iteration");
+            let mut body = String::new();
+            for j in 0..pushes {
+                body.push_str(&format!("    scratch.push({})\n", j + 1));
+            }
+            src.push_str(&format!(
+                "var total = 0\nfor i in n {{\n    let scratch = []\n{body}    total = total + scratch.len()\n}}\nobs(0, \"\" .. (total == {pushes} * n))\n"
+            ));
+        }
+        7 => {
+            let rows = rng.range(2, 5);
+            descr = format!("a {rows}-row integer matrix rebuilt per iteration");
+            src.push_str(&format!(
+                "var total = 0\nfor i in n {{\n    let m: array<array<int>> = []\n    for r in {rows} {{\n        let row = [i]\n        row.push(r)\n        row.push(7)\n        row.push(i + r)\n        row.push(0)\n        m.push(row)\n    }}\n    total = total + m[{}].len()\n}}\nobs(0, \"\" .. (total == 5 * n))\n",
+                rows - 1
+            ));
+        }
+        8 => {
+            descr = "tuples, floats and string conversions per iteration".to_string();
+            src.push_str(
+                "var last = \"\"\nfor i in n {\n    let t = (i, \"v\" .. i, [i, 2, 3])\n    let (a, b, c) = t\n    c.push(4)\n    let f = a.to_float() + 0.5\n    last = b .. c.len() .. f\n}\nobs(0, \"\" .. (last == last))\n",
+            );
+        }
         0 => {
             descr = format!("ring buffer of {k} live strings");
             src.push_str(&format!(
